@@ -149,7 +149,10 @@ def cube_rules(prog, rep):
             left, right = v.args[1], v.args[2]
             r = per_dim_tuple(right, I, [dims])
             if name == "marginless":
-                elem_ok = r is not None and r[0].op == "call" and tm.callee_name(r[0]) == "builtins.slice" and r[0].args[1] == (tm.const(0), tm.const(-1))
+                # slice(0, -1) / slice(None, -1) / slice(-1): everything but the last (margin) position
+                sl = r[0].args[1] if (r is not None and r[0].op == "call" and tm.callee_name(r[0]) == "builtins.slice") else None
+                elem_ok = sl is not None and ((len(sl) in (2, 3) and (tm.is_const(sl[0], 0) or sl[0] == tm.NONE) and tm.is_const(sl[1], -1) and (len(sl) == 2 or sl[2] == tm.NONE or tm.is_const(sl[2], 1)))
+                                              or (len(sl) == 1 and tm.is_const(sl[0], -1)))
             else:
                 elem_ok = r is not None and tm.is_const(r[0], -1)
             ok = left == sc and elem_ok
@@ -408,7 +411,7 @@ def main(tier):
         c16.analyse_one(prog, module, cls, sub)
     k = 0
     for o in sub.obls:
-        if o.rule in ("R-C16-a", "R-C16-b"):
+        if o.rule in ("R-C16-a", "R-C16-b", "R-C16-c"):
             k += 1
             rep.add("R-C13-f", o.where, "[%s] %s" % (o.rule, o.construct), o.status, o.detail, True, o.witness)
     rep.floor("R-C13-f", 4, k)
